@@ -21,7 +21,7 @@ func C07(c *Ctx) {
 	c.Assume("for grammars with throw/recover only the 'silently accepted' direction is decided (pigeon's static treatment of recovery expressions is a convention that may reject more); a cycle guarded by an always-false predicate has no dynamic witness and is not reported")
 	rng := rand.New(rand.NewSource(c.Seed*887 + 7))
 	ng := c.N(400, 6000)
-	gs := c07Strata()
+	gs := append(c07Strata(), c07NullableRep()...)
 	for i := 0; i < ng; i++ {
 		if i%4 == 3 {
 			// throw/recover grammars: only the "silently accepted" direction is decided for them
@@ -113,7 +113,12 @@ func (c *Ctx) c07Chunk(gs []*gast.Grammar, rng *rand.Rand) {
 	var accepted []*gast.Grammar
 	var accIdx []int
 	var acyclic []*gast.Grammar
-	defer func() { c.c07RunAcyclic(acyclic, rng) }()
+	defer func() { c.c07RunTraced(acyclic, rng, false) }()
+	// accepted although the analysis finds a cycle, and the model has no witness (its interpreter does
+	// not get past a repetition whose operand matches empty, for instance): the generated parser's own
+	// trace decides - whatever the run time does with such a repetition, it must not re-enter a rule
+	var noWitness []*gast.Grammar
+	defer func() { c.c07RunTraced(noWitness, rng, true) }()
 	var optAcc []*gast.Grammar
 	var optW []*c07w
 	defer func() { c.c07RunOptAccepted(optAcc, optW) }()
@@ -166,6 +171,9 @@ func (c *Ctx) c07Chunk(gs []*gast.Grammar, rng *rand.Rand) {
 			in, entry, key, _ := findReentry(g, c07Inputs(g, rng))
 			if key == "" {
 				c.Inconclusive("static_cycle_without_dynamic_witness")
+				if g.KindsUsed()[gast.Throw]+g.KindsUsed()[gast.Recovery] == 0 {
+					noWitness = append(noWitness, g)
+				}
 				continue
 			}
 			inf.witness = &c07w{gi: i, in: in, entry: entry, reentry: key}
@@ -267,7 +275,7 @@ func (c *Ctx) c07RunOptAccepted(gs []*gast.Grammar, ws []*c07w) {
 // a runaway descent) and their own traces must not show a rule entered at an offset at which it is
 // already being evaluated - whatever the reason (a terminal that matches without consuming at the
 // end of input makes a right recursion re-enter, for instance).
-func (c *Ctx) c07RunAcyclic(gs []*gast.Grammar, rng *rand.Rand) {
+func (c *Ctx) c07RunTraced(gs []*gast.Grammar, rng *rand.Rand, cyclic bool) {
 	if len(gs) == 0 {
 		return
 	}
@@ -321,6 +329,14 @@ func (c *Ctx) c07RunAcyclic(gs []*gast.Grammar, rng *rand.Rand) {
 			c.Inconclusive("no_debug_result")
 			continue
 		}
+		if cyclic {
+			c.CovAdd("parses_traced_of_accepted_grammars_with_a_static_cycle_and_no_model_witness", 1)
+			if r.Dbg.Reentry != "" {
+				c.Report(&Violation{Class: "C07/silently-accepted", Summary: fmt.Sprintf("pigeon accepts a grammar with a first-call cycle without -support-left-recursion, and the generated parser re-enters %s while it is already being evaluated at that offset (its own Debug trace; the model has no witness of its own for this grammar; input %q, entrypoint %q, flags [%s]); grammar %q",
+					strings.TrimPrefix(r.Dbg.Reentry, "parseRule "), k.in, k.e, k.u.FlagID, gast.Short(k.u.G)), Grammar: k.u.Text, Flags: k.u.Flags, Input: k.in, Case: cs, Sig: c07Sig(k.u.G, "accepted")})
+			}
+			continue
+		}
 		c.CovAdd("acyclic_parses_traced", 1)
 		c.CovAdd("acyclic_trace_lines", r.Dbg.Lines)
 		if r.Dbg.Reentry != "" {
@@ -370,6 +386,24 @@ func (c *Ctx) runKnownC07() {
 	res2 := c.W.Gen(gast.Print(g2, gast.PrintOpts{Pkg: "p", Plain: true}))
 	c.MarkKnownStillFails("F18-dynamic-handler-cycle", res2.Exit == 0)
 	c.Eval(2)
+}
+
+// c07NullableRep: a + (or *) repetition whose operand can match empty, directly before a reference
+// back to the enclosing rule. The analysis sees a cycle (the repetition can succeed without
+// consuming); whether the run time spins in the repetition until the budget ends or leaves it after an
+// empty iteration, the rule behind it must not be entered again at the same offset.
+func c07NullableRep() []*gast.Grammar {
+	mk := func(rules ...*gast.Rule) *gast.Grammar { return &gast.Grammar{Rules: rules} }
+	r := func(n string, e *gast.Expr) *gast.Rule { return &gast.Rule{Name: n, Expr: e} }
+	blank := func() *gast.Rule { return r("B", gast.S(gast.Star(gast.Cl(gast.Chars(" \t"))), gast.Opt(gast.L("\n")))) }
+	line := func() *gast.Rule { return r("L", gast.S(gast.Plus(gast.Cl(gast.Chars("ab"))), gast.L("\n"))) }
+	return []*gast.Grammar{
+		mk(r("S", gast.C(gast.S(gast.Plus(gast.Ref("B")), gast.Ref("S")), gast.S(gast.Ref("L"), gast.Ref("S")), gast.NotE(gast.Dot()))), blank(), line()),
+		mk(r("S", gast.C(gast.S(gast.Plus(gast.Opt(gast.L("a"))), gast.Ref("S")), gast.L("b")))),
+		mk(r("S", gast.C(gast.S(gast.Plus(gast.Star(gast.L("a"))), gast.Ref("T")), gast.L("b"))), r("T", gast.C(gast.S(gast.L("c"), gast.Ref("S")), gast.Ref("S")))),
+		mk(r("S", gast.S(gast.Ref("W"), gast.C(gast.S(gast.Plus(gast.AndE(gast.Dot())), gast.Ref("S")), gast.L("x")))), r("W", gast.Star(gast.L(" ")))),
+		mk(r("S", gast.C(gast.S(gast.Lab("p", gast.Plus(gast.Ref("B"))), gast.Lab("q", gast.Ref("S"))), gast.S(gast.Ref("L"), gast.Ref("S")), gast.L(""))), blank(), line()),
+	}
 }
 
 func c07Strata() []*gast.Grammar {
